@@ -178,6 +178,15 @@ func runC41(c *Ctx) {
 				w = f.MustPrecede(ins, nil, pub)
 				c.Check(w == nil, fn.String()+"/tombstone≺publish", "the tombstone is recorded locally before it is sent to peers", c.P.Pos(fn.Decl.Pos()), f.describe(w))
 			}
+			// every delete request / peer tombstone is recorded, whatever the local store holds: a replica that never saw the
+			// key must still refuse its late value. Only a node's own echo and an undecodable key are skipped.
+			skip := f.FactEdges(func(cm cmp) bool { return cm.Op == token.EQL && isCallNamed(info, cm.L, "GetDeletedByNode") })
+			errEdges, _ := f.ErrEdgesOf(f.CallTo(c.FuncObj("internal/codec", "DecodeCRDTKey")), true)
+			for e := range errEdges {
+				skip[e] = true
+			}
+			w = f.search(searchSpec{avoid: ins, avoidEdges: skip, exits: true})
+			c.Check(w == nil, fn.String()/*key*/+"/always-recorded", "a delete (local request or peer tombstone) always records the tombstone, independent of the local store contents", c.P.Pos(fn.Decl.Pos()), "an exit is reachable without recording the tombstone: "+f.describe(w))
 			// no store write in the delete path
 			c.Check(len(f.Find(func(nd ast.Node) bool { _, _, ok := isMapWrite(info, nd, store); return ok })) == 0, fn.String()+"/no-store-write", "the delete path never writes a value into the store", c.P.Pos(fn.Decl.Pos()), "")
 		}
